@@ -70,6 +70,7 @@ PROPS = {
                     "url.ResolveReference as an oracle table: every id of the world x every string in a reference position, listed where the result is not the reference itself (model parameter `World.resolve`)",
                     "goroutine fan-out in the constructors is an order-preserving map"],
         "assumptions": ["FetchURL semantics are those of the jtp model (C03), composed into the world by the driver"],
+        "lean_modules": ["Props.Gen02", "Props.GenT02"],
         "shrink_budget": 3,
     },
     "C06": {
@@ -131,6 +132,7 @@ PROPS = {
                 "compared: per-position classification of every listed entry; predicates on the implementation's output: a listed activity's actor id equals the owner's id, a listed reply's parent id equals the post's id, authors share the post's host (the authority url.Parse reads out of the two ids); non-trivial = at least one child or ancestor is listed; distinct by op content",
         "trusted": ["as C02"],
         "assumptions": [],
+        "lean_modules": ["Props.Gen02", "Props.GenT02"],
         "shrink_budget": 3,
     },
     "C03": {
@@ -344,7 +346,7 @@ MANIFEST_TEXT = {
         "technique": "Lean 4 proof (cell-level refinement of the ANSI layer) + differential correspondence with a terminal state machine",
     },
     "C02": {
-        "text": "Lean theorems over an arbitrary world (fetch function): FetchUnknown returns an object with an id only if that object was served by the id's host (directly, or re-fetched, or embedded in a document from it), and the constructors only ever pass an enclosing object's own validated id as source, so every item of a built tree has provenance at its id's host; a foreign embedded object is re-fetched or rejected as forged. Tied to client.go/pub by differential correspondence on whole item trees over multi-host TLS worlds whose every body is stamped with the serving host; the stamp-vs-id predicate is evaluated on every implementation output.",
+        "text": "Lean theorems over an arbitrary world (fetch function): FetchUnknown returns an object with an id only if that object was served by the id's host (directly, or re-fetched, or embedded in a document from it), and the constructors only ever pass an enclosing object's own validated id as source, so every item of a built tree has provenance at its id's host; a foreign embedded object is re-fetched or rejected as forged. Tied to client.go by translation (client.FetchUnknown is translated to Lean on every run and proved equal to the model's fetchUnknown for every world, input and source, nil dereferences excluded: Props/Gen02.lean; the provenance and forged-identifier theorems restated on the translated function: Props/GenT02.lean) and to client.go/pub by differential correspondence on whole item trees over multi-host TLS worlds whose every body is stamped with the serving host; the stamp-vs-id predicate is evaluated on every implementation output.",
         "design_ref": "DESIGN.md §5 C02",
         "note": "Trusted: Lean kernel; correspondence check (testing); net/url host parsing as a parameter; TLS.",
         "technique": "Lean 4 proof (provenance invariant through FetchUnknown and the constructors) + differential correspondence over multi-host simulator worlds",
@@ -368,7 +370,7 @@ MANIFEST_TEXT = {
         "technique": "Lean 4 proof (interleaving model, invariant over all reachable states) over facts regenerated from the source by a translator + race-detector stress as validation",
     },
     "C09": {
-        "text": "Lean theorems: an outbox element is delivered as an activity iff construction succeeded, the owner has an id and the activity's resolved actor id equals it; a reply element is delivered as a post iff its resolved inReplyTo id equals the post's id; a post is built only if every resolved author shares its host; listings keep one entry per element in order, failures in place. Tied to pub by differential correspondence on listings over multi-host worlds with impostors; genuineness predicates are evaluated on every implementation output.",
+        "text": "Lean theorems: an outbox element is delivered as an activity iff construction succeeded, the owner has an id and the activity's resolved actor id equals it; a reply element is delivered as a post iff its resolved inReplyTo id equals the post's id; a post is built only if every resolved author shares its host; listings keep one entry per element in order, failures in place. The FetchUnknown that resolves every actor, reply target and author is tied to client.go by translation (Props/Gen02.lean, Props/GenT02.lean); the filters are tied to pub by differential correspondence on listings over multi-host worlds with impostors; genuineness predicates are evaluated on every implementation output.",
         "design_ref": "DESIGN.md §5 C09",
         "note": "Trusted: as C02.",
         "technique": "Lean 4 proof (case analysis of the listing filters, positions via the paging theorems) + differential correspondence",
